@@ -830,3 +830,77 @@ def strip_lead(st):
         if s2 == st:
             return st
         st = s2
+
+
+# --------------------------------------------------------------------------
+# Renamed locals / parameters: contracts of the fragment units (C16-C18) name the code's variables.  A pure rename must
+# not change the verdict, so the extracted text is first brought back to the names the contract was written with:
+# binding occurrences are listed in order of first appearance and compared POSITIONALLY with the recorded list.
+_BIND_PATS = [
+    r"\blet\s+(?:mut\s+)?(\w+)\b",
+    r"\blet\s+(?:mut\s+)?\(([^()]*)\)\s*(?::[^=]*)?=",
+    r"\bfor\s+(\w+)\s+in\b",
+    r"\bfor\s+\(([^()]*)\)\s+in\b",
+    r"\bif\s+let\s+[\w:]+\(\(?([^()]*)\)?\)\s*=",
+    r"[\w:]*[A-Z]\w*\(([^()]*)\)\s*(?:\|\s*[\w:]+\([^()]*\)\s*)*=>",
+    r"\|\(?([\w\s,&]*)\)?\|",
+]
+
+
+def param_names(sig):
+    i = sig.index("(")
+    e = match_brace(sig, i, "(", ")")
+    out = []
+    depth, cur = 0, ""
+    for c in sig[i + 1:e - 1] + ",":
+        if c in "(<[":
+            depth += 1
+        elif c in ")>]":
+            depth -= 1
+        if c == "," and depth == 0:
+            m = re.match(r"\s*(?:mut\s+)?(\w+)\s*:", cur)
+            if m:
+                out.append(m.group(1))
+            cur = ""
+        else:
+            cur += c
+    return out
+
+
+def binding_names(body):
+    found = []
+    for pat in _BIND_PATS:
+        for m in re.finditer(pat, body):
+            for mn in re.finditer(r"\w+", m.group(1)):
+                nm = mn.group(0)
+                if nm == "mut" or not re.fullmatch(r"[a-z_]\w*", nm) or nm == "_":
+                    continue
+                found.append((m.start(1) + mn.start(), nm))
+    out = []
+    for _, nm in sorted(found):
+        if nm not in out:
+            out.append(nm)
+    return out
+
+
+def canon_bindings(sig, body, expected_params, expected_locals):
+    """rename parameters / locals of `body` back to the recorded names when the lists agree in length (a pure rename);
+    anything else is left as it is"""
+    ren = {}
+    if expected_locals is None:
+        expected_locals = []
+        if os.environ.get("VERIF_RECORD_BINDINGS"):
+            print("BINDINGS", [n for n in binding_names(body) if n not in param_names(sig)])
+    actual_p = param_names(sig)
+    if len(actual_p) == len(expected_params):
+        ren.update({a: e for a, e in zip(actual_p, expected_params) if a != e})
+    actual_l = [n for n in binding_names(body) if n not in actual_p]
+    if len(actual_l) == len(expected_locals):
+        ren.update({a: e for a, e in zip(actual_l, expected_locals) if a != e})
+    if not ren:
+        return body
+    # a target name that is still in use for something else would be captured: give up (the unit then decides on the text as it is)
+    for a, e in ren.items():
+        if e not in ren and re.search(r"(?<![\w.:])%s\b" % re.escape(e), body):
+            return body
+    return re.sub(r"(?<![\w.:])(%s)\b(?!\s*::)" % "|".join(map(re.escape, ren)), lambda m: ren[m.group(1)], body)
